@@ -72,7 +72,9 @@ def header_rules(ck, agg):
             agg.add("R11.1", f_unpack, "unpack() uses the same format as pack()", ups[0].data[0] == pack_fmt, "pack %r vs unpack %r" % (pack_fmt, ups[0].data[0]))
             src = ups[0].data[1]
             tg = src.parts[0][0] if isinstance(src, Bytes) and len(src.parts) == 1 else None
-            agg.add("R11.2", f_unpack, "the header is read from buffer[0:8]", tg is not None and tg[0] == "slice" and tg[1] == ("param", "buffer") and tg[2] == 0 and tg[3] == T.HEADER_SIZE, "decodes %r" % (tg,))
+            # buffer[0:8] handed to unpack(), or the whole buffer handed to unpack_from() at offset 0: the same eight bytes
+            whole_at_0 = len(ups[0].data) > 4 and const_of(norm(ups[0].data[4])) == 0 and tg == ("param", "buffer")
+            agg.add("R11.2", f_unpack, "the header is read from buffer[0:8]", whole_at_0 or (tg is not None and tg[0] == "slice" and tg[1] == ("param", "buffer") and tg[2] == 0 and tg[3] == T.HEADER_SIZE), "decodes %r" % (tg,))
         cell = out.state.heap[h.ident]
         for k, fld in enumerate(T.HEADER_ORDER):
             v = cell.fields.get(fld)
@@ -199,6 +201,8 @@ def fragment_loop(ck, agg, rule="R11.6"):
                     agg.add(rule, f, "all fragments share the message's frame id", net.base_deps(fid) == {"frame_buf.header.frame_id"}, "%s: frame id of fragment %d is %r" % (label, k, fid))
                     lo, hi = tags[1][2], tags[1][3]
                     hi = const_of(norm(Const(hi))) if isinstance(hi, int) else None
+                    if isinstance(hi, int):
+                        hi = min(hi, mlen)      # a slice bound beyond the end is clamped by Python: message[24:48] of 25 bytes is [24:25]
                     want_hi = min(mlen, pos + M)
                     agg.add(rule, f, "fragment boundaries partition the message in 24-byte steps", lo == pos and hi == want_hi, "%s: fragment %d covers [%r:%r], expected [%d:%d]" % (label, k, lo, tags[1][3], pos, want_hi))
                     ln = const_of(norm(buf.length()))
